@@ -164,11 +164,23 @@ def make_providers(schedule, rc=None, fc=None, hints=None, packages=None, fc_fun
         edifact_format = sut.FMT
         edifact_format_version = sut.VER
 
-        async def get_condition_expression(self, package_key):
+        async def _look_up(self, package_key):
             await schedule.pause(("pkg", package_key, packages.get(package_key)))
             return PackageKeyConditionExpressionMapping(
                 edifact_format=sut.FMT, package_key=package_key, package_expression=packages.get(package_key)
             )
+
+        if len(schedule.delays) % 2 == 1:
+
+            def get_condition_expression(self, package_key):  # pylint:disable=invalid-overridden-method
+                # ahbicht awaits what this method returns: any awaitable will do, e.g. the task of a request that is
+                # already under way (a resolver that starts its look-ups eagerly)
+                return asyncio.ensure_future(self._look_up(package_key))
+
+        else:
+
+            async def get_condition_expression(self, package_key):
+                return await self._look_up(package_key)
 
     providers = [Rc(), Fc(), Hints(), Packages()]
     if decoys:
